@@ -8,6 +8,8 @@ namespace QF.Props.C05
 -- `grouper.Distinct`, `groupIndex`, `table.insertEntry`, `table.grow`: regenerated as `Gen.grouperFns` (grpast.go), `C04GrouperCanon.gen_grouper_canon` +
 -- `C04GrouperGen.gen_grouper_semantics`, `C05DistinctGen.gen_distinct_spec`.
 -- QFrame.Distinct is regenerated: its guard in `Gen.guardAst2` (C10Guards.gen_distinct_semantics), the comparables it hands to the grouper in `Gen.distinctCmpsAst` (C04GlueGen.gen_distinct_cmps_semantics, gen_distinct_rows), the new index in `Gen.projectAst` (C08ProjectGen); nothing of C05 is compared as text any more.
+-- The helpers `QFrame.comparables` / `QFrame.orders` that build the key comparables are also regenerated on their own, statement by statement, in `Gen.comparablesAst` /
+-- `Gen.ordersAst` (sortgast.go): `C03SortGlueGen.gen_comparables_semantics` / `gen_comparables_of_names` (one comparable per named column, in order, the SAME Null flag for all).
 theorem tie : Tie.sameAll [] = true := by decide
 
 end QF.Props.C05
